@@ -206,6 +206,7 @@ Lemma add_super_sequence_r c ctr name items len c1 ctr1 : INV c ctr -> dom_ok c 
   add_super_sequence (r_comp c) (sh ctr) name items len = OK (r_comp c1, sh ctr1) /\ dom_ok c1.
 Proof. intros [W W2 F] [KB US] L B H. unfold add_super_sequence in *. destruct (is_anon name) eqn:HN; [discriminate|].
   rewrite (seq_defined_r c name KB HN). destruct (seq_defined c name) eqn:SD; [discriminate|].
+  change (c_structs (r_comp c)) with (c_structs c). destruct (ahas (c_structs c) name); [discriminate|].
   destruct (clean_const c items) as [const|] eqn:CC; [|discriminate]. cbn [bind] in H.
   rewrite (clean_const_r c KB items const CC). cbn [bind].
   destruct (build_super c ctr const len) as [[[s anons] k1]|] eqn:BS; [|discriminate]. cbn [bind] in H.
@@ -258,7 +259,8 @@ Proof. intros [W W2 F] [KB US] L B H. unfold add_strand in *. cbn [r_comp c_stra
 Lemma add_sequence_r c name ps len c1 : dom_ok c ->
   add_sequence c name ps len = OK c1 -> add_sequence (r_comp c) name ps len = OK (r_comp c1) /\ dom_ok c1.
 Proof. intros [KB US] H. unfold add_sequence in *. destruct (is_anon name) eqn:HN; [discriminate|]. rewrite (seq_defined_r c name KB HN).
-  destruct (seq_defined c name); [discriminate|]. destruct (get_length_const len ps) as [l k| |k]; try discriminate.
+  destruct (seq_defined c name); [discriminate|]. change (c_structs (r_comp c)) with (c_structs c). destruct (ahas (c_structs c) name); [discriminate|].
+  destruct (get_length_const len ps) as [l k| |k]; try discriminate.
   injection H as H. subst c1. destruct (rho_user name HN) as [Dn Rn]. split.
   - unfold r_comp, set_bases. cbn [c_prefix c_bases c_sups c_strands c_structs c_kins c_ins c_outs].
     rewrite r_tbl_app, r_tbl_one, Rn. reflexivity.
@@ -276,8 +278,9 @@ Proof. revert ts. induction names as [|n r IH]; intros ts H t Ht; simpl in H; [i
 Lemma add_structure_r c opt name names domain s0 c1 : WF c -> dom_ok c ->
   add_structure c opt name names domain s0 = OK c1 ->
   add_structure (r_comp c) opt name names domain s0 = OK (r_comp c1) /\ dom_ok c1.
-Proof. intros W [KB US] H. unfold add_structure in *. cbn [r_comp c_structs].
-  destruct (ahas (c_structs c) name); [discriminate|].
+Proof. intros W [KB US] H. unfold add_structure in *. change (c_structs (r_comp c)) with (c_structs c).
+  destruct (ahas (c_structs c) name); [discriminate|]. destruct (is_anon name) eqn:HN; [discriminate|].
+  rewrite (seq_defined_r c name KB HN). destruct (seq_defined c name); [discriminate|]. cbn [r_comp c_structs].
   destruct (find_strands c names) as [ts|] eqn:FS; [|discriminate]. cbn [bind] in H.
   change (find_strands _ names) with (find_strands (r_comp c) names). rewrite (find_strands_r c names ts FS). cbn [bind].
   assert (E1 : map (fun t => map (ref_len (r_comp c)) (s_seqs (t_sup t))) (map r_strand ts) = map (fun t => map (ref_len c) (s_seqs (t_sup t))) ts).
@@ -328,7 +331,7 @@ Proof. intros [KB US] H. unfold add_IO in *.
 Lemma step_ctr c ctr s c1 ctr1 : INV c ctr -> step (c, ctr) s = OK (c1, ctr1) -> ctr <= ctr1.
 Proof. intros [W W2 F] H. destruct s as [name items len|dummy name items len|opt name names domain sn|low high ins0 outs]; cbn [step] in H.
   - assert (G : add_super_sequence c ctr name items len = OK (c1, ctr1) -> ctr <= ctr1).
-    { clear H. intros H. unfold add_super_sequence in H. destruct (is_anon name); [discriminate|]. destruct (seq_defined c name); [discriminate|].
+    { clear H. intros H. unfold add_super_sequence in H. destruct (is_anon name); [discriminate|]. destruct (seq_defined c name); [discriminate|]. destruct (ahas (c_structs c) name); [discriminate|].
       destruct (clean_const c items) as [const|] eqn:CC; [|discriminate]. cbn [bind] in H.
       destruct (build_super c ctr const len) as [[[s anons] k1]|] eqn:BS; [|discriminate]. cbn [bind] in H. injection H as _ <-.
       apply (bt_ctr _ _ _ _ _ (build_super_spec c ctr const len s anons k1 F (clean_const_spec c W items const CC) BS)). }
